@@ -26,8 +26,9 @@ Definition lout_eqb (m o : lout) : bool :=
 (* ---- the property, evaluated on the implementation's observations ---- *)
 (* usable for the peer known under [peers]: outside the node's own networks, allowed globally, and allowed by the
    inside allow list of one of the peer's overlay addresses *)
-Definition usable (c : config) (peers : list addr) (a : ap) : bool :=
-  negb (in_my c (ap_addr a)) && global_allow c (ap_addr a) && existsb (fun v => inside_allow c v (ap_addr a)) peers.
+Definition usable (c : config) (peers : list addr) (x : ap) : bool :=
+  let a := unmap_addr (ap_addr x) in   (* the host the address designates *)
+  negb (in_my c a) && global_allow c a && existsb (fun v => inside_allow c v a) peers.
 
 Definition configured (c : config) (vpn : addr) : list ap :=
   flat_map (fun e => if addr_eqb (fst e) vpn then filter (fun a => should_add c [vpn] (ap_addr a)) (static_addrs (snd e)) else []) (cfg_static c).
